@@ -93,7 +93,7 @@ Req_Attrs(d) == [secure |-> d.secure, httpOnly |-> d.httpOnly, sameSite |-> d.sa
                  domain |-> WireDomain(Req_Domain(d.host, d.domains))]
 CaseRec(d) == [fam |-> "c18", in |-> [d EXCEPT !.domains = SetAsSeq(d.domains)],
                req  |-> [attrs |-> <<Req_Attrs(d)>>, maxLen |-> [le |-> 4096], sessionCookiesAfterSignOut |-> 0,
-                         cookiesSeen |-> [ge |-> 5]],
+                         cookiesSeen |-> [ge |-> 6], refreshCookie |-> "set"],
                impl |-> [domain |-> WireDomain(Impl_Domain(d.host \o d.port, d.domains))]]
 EmitVocab == JsonSerialize("vocab.json", Vocab)
 EmitCase  == CSVWrite("%1$s", <<ToJson(CaseRec(c))>>, "cases.ndjson")
